@@ -117,7 +117,7 @@ class Spec:
                 if name in self.modules:
                     # several spec files may contribute to one module
                     m = self.modules[name]
-                    for k in ('fn', 'impl', 'item', 'drop'):
+                    for k in ('fn', 'impl', 'item', 'drop', 'client_clause', 'auto_fn'):
                         m.setdefault(k, []).extend(d.get(k, []))
                     mt = d.get('module', {})
                     m.setdefault('module', {})
@@ -1013,6 +1013,12 @@ class Extractor:
             if (mod, h) not in self.used_impl_specs:
                 raise ExtractError('%s: spec for impl %r has no matching block in the source (lost anchor)' % (mod, h))
         mspec = dict(ms.get('module', {}))
+        # clauses of verified client lemmas written out in the module's `bottom` text (labelled there by hand)
+        for mc in ms.get('client_clause', []):
+            c = Clause(mc['label'], list(mc.get('own', [])), list(mc.get('dep', [])), mc['text'])
+            self.register_clause(c, mc.get('fn', 'client lemma'), 'verified client', mod)
+            if ('/*#%s*/' % mc['label']) not in (mspec.get('bottom', '') + mspec.get('top', '')):
+                raise ExtractError('%s: client clause %s is not labelled in the module text' % (mod, mc['label']))
         for gname in mspec.get('generated_bottom', []):
             if gname == 'abi_values':
                 mspec['after_module'] = mspec.get('after_module', '') + '\n' + self.gen_abi_values(toks, items, mod)
@@ -1061,6 +1067,12 @@ class Extractor:
         for rec in self.fns:
             rec.line_start = li(rec.out_start)
             rec.line_end = li(max(rec.out_start, rec.out_end - 1))
+        # vacuity guard: a precondition on a public entry point would make "for all inputs" claims vacuous there.
+        # Allowed: the documented exceptions listed in units.toml ([allow_public_requires]), nothing else.
+        allowed = self.spec.units.get('allow_public_requires', {}).get('fns', [])
+        for rec in self.fns:
+            if rec.requires_n and rec.public and not any(re.fullmatch(a, '%s::%s' % (rec.module, rec.path)) for a in allowed):
+                raise ExtractError('spec puts a `requires` on the public function %s::%s (not in units.toml [allow_public_requires])' % (rec.module, rec.path))
         scan = []
         for m in re.finditer(r'external_body|assume_specification|admit\s*\(|assume\s*\(|external_type_specification|external_trait_specification|\buninterp\b', full):
             scan.append((li(m.start()), m.group(0)))
